@@ -6,7 +6,7 @@ import (
 	clipper "github.com/bolom009/go-clipper2"
 )
 
-// The C18 harness bodies: a 14-call alphabet over shared, read-only inputs and
+// The C18 harness bodies: a 16-call alphabet over shared, read-only inputs and
 // distinct engine objects. The same bodies run (a) under the cooperative
 // scheduler of the schedule explorer and (b) free-running under the race detector.
 
@@ -62,6 +62,19 @@ var c18Calls = []struct {
 		co.Execute64(-2, &s2)
 		return fmt.Sprint(s1, s2)
 	}},
+	{"ClipperOffset(delta callback 3, Round, arc .25)", func() string { return c18Callback(3, 0.25) }},
+	{"ClipperOffset(delta callback 7, Round, arc .5)", func() string { return c18Callback(7, 0.5) }},
+}
+
+// c18Callback: the variable-offset route (delta callback installed), round joins
+func c18Callback(d, arc float64) string {
+	co := clipper.NewClipperOffset(2, arc, false, false)
+	var cb clipper.DeltaCallbackFunc = func(*clipper.Path64, *clipper.PathD, uint8, uint8) float64 { return d }
+	co.SetDeltaCallback(&cb)
+	co.AddPaths(c18S, clipper.Round, clipper.Polygon)
+	var s Paths
+	co.Execute64(1, &s)
+	return fmt.Sprint(s)
 }
 
 func c18Snapshot() string { return fmt.Sprint(c18S, c18C, c18L) }
